@@ -1,9 +1,10 @@
 import os
+import shutil
 import stat
 import subprocess
 
 from pygopherd import gopherentry
-from pygopherd.handlers.base import has_fileno
+from pygopherd.handlers.base import has_fileno, is_socket
 from pygopherd.handlers.virtual import Virtual
 
 
@@ -42,11 +43,13 @@ class ExecHandler(Virtual):
         if self.selectorargs:
             args.extend(self.selectorargs.split(" "))
 
-        if not self.protocol.check_tls() and has_fileno(wfile):
+        if has_fileno(wfile) and not is_socket(wfile):
+            # A plain file or pipe: the script may as well write to it.
             subprocess.run(args, env=newenv, stdout=wfile)
         else:
-            # We can't pass the file handler because it's wrapped in a TLS context
-            # (or is an in-memory buffer, as in the WAP text conversion).
-            # So grab the output from the CGI script and send it directly.
-            resp = subprocess.run(args, env=newenv, capture_output=True)
-            wfile.write(resp.stdout)
+            # A client connection (possibly wrapped in TLS) or an in-memory
+            # buffer (WAP text conversion): the script's output is relayed by
+            # us, so that a client that goes away is noticed here and logged
+            # like any other failed write instead of silently killing the script.
+            with subprocess.Popen(args, env=newenv, stdout=subprocess.PIPE) as proc:
+                shutil.copyfileobj(proc.stdout, wfile)
